@@ -53,7 +53,7 @@ def describe(tier):
             "Converse direction, exhaustive within the bound: payload length 0..%d x 5 byte classes + every single byte value at the first and last "
             "position of a 24-byte payload; bare base64 (encoded with an own encoder) x 4 embeddings at scan level, expected: exactly one "
             "encoding.base64 node covering exactly the blob with the payload as value whenever the documented acceptance rules hold (own predicate); "
-            "boundary blobs on both sides of every rule (20/24 characters, 6/7 distinct characters, pure hex, pure letters, slash share 3/32 +- one "
+            "long payloads (up to 3000 bytes) that start with a monotonous sled so that the characters which satisfy the rules appear only late; boundary blobs on both sides of every rule (20/24 characters, 6/7 distinct characters, pure hex, pure letters, slash share 3/32 +- one "
             "character); every assignment of %d line-break spellings to the %d gaps of a 7-group blob; 6 call forms x every payload length; hex runs of "
             "9/10/11/16 pairs x lower/upper/mixed x digit-only prefixes of 0..24 characters x embeddings; FromHexString call forms (plain, [System.Convert]:: prefix, lower case); PowerShell byte arrays of 499..640 elements x 5 element spellings (decimal, 0x hex, 0X HEX, zero-padded, mixed) x 4 separators x 3 embeddings. "
             "Forward direction: every node labelled encoding.base64 / decoded.hexadecimal / encoding.hexidecimal / cipher.xor* / cipher.multibyte_xor "
@@ -73,7 +73,7 @@ def plan(tier, seed):
     maxlen = 40 if tier == "quick" else 64
     units = [("bare", tier, n) for n in range(0, maxlen + 1)]
     units += [("bytepos", v0) for v0 in range(0, 256, 16)]
-    units += [("bounds",)]
+    units += [("bounds",), ("late",)]
     units += [("breaks", i) for i in range(len(BREAKS))]
     units += [("calls", tier, ci) for ci in range(len(CALLS))]
     units += [("hex", case) for case in ("lower", "upper", "mixed")]
@@ -233,6 +233,30 @@ def run_unit(unit, rec):
                 exp = ("encoding.base64", "", len(pre), len(pre) + len(b64), payload) if ok else None
                 scan_and_check(rec, data, {"kind": "bare", "data": data, "blob": [len(pre), len(pre) + len(b64)], "payload": payload or b""}, exp)
         rec.sample({"family": "acceptance-boundaries", "blobs": len(blobs)})
+    elif kind == "late":
+        # acceptance rules are properties of the WHOLE blob: long payloads whose first part is monotonous (sled / padding) and whose
+        # distinguishing characters only appear late
+        tail = b"The quick brown fox jumps over the lazy dog 0123456789 +/"
+        for filler in (b"\x90", b"\x00", b"A", b"\xff"):
+            for n in (21, 45, 93, 96, 99, 189, 192, 381, 768, 3000):
+                for tl in (6, 12, 57):
+                    payload = filler * n + tail[:tl]
+                    b64 = b64enc(payload)
+                    for pre, suf in EMBED[:2]:
+                        data = pre + b64 + suf
+                        rec.mark("states", data, True)
+                        w = {"kind": "bare", "data": data, "blob": [len(pre), len(pre) + len(b64)], "payload": payload}
+                        exp = ("encoding.base64", "", len(pre), len(pre) + len(b64), payload) if codec_ref.b64_accepts(b64) else None
+                        scan_and_check(rec, data, w, exp)
+        # hex: long runs, and the minimum run at the end of a long digit prefix
+        for n in (10, 11, 64, 1000):
+            body = bytes((i * 7 + 3) % 256 for i in range(n))
+            for blob in (body.hex().encode(), body.hex().upper().encode()):
+                data = b"h " + blob + b" ."
+                rec.mark("states", data, True)
+                scan_and_check(rec, data, {"kind": "hex", "data": data, "blob": [2, 2 + len(blob)], "case": "lower" if blob.islower() or blob.isdigit() else "upper", "digit_prefix": 0},
+                               ("decoded.hexadecimal", "", 2, 2 + len(blob), body))
+        rec.sample({"family": "late-distinguishing-characters", "fillers": 4, "lengths": [21, 45, 93, 96, 99, 189, 192, 381, 768, 3000]})
     elif kind == "breaks":
         groups = [b"VGhl", b"IHF1aWNrIGJy", b"b3du", b"IGZveCBq", b"dW1wcyBvdmVy", b"IHRoZSBsYXp5", b"IGRvZw=="]
         payload = b"The quick brown fox jumps over the lazy dog"
